@@ -27,7 +27,7 @@ ALL_KEYWORDS = (TIME_KW + U32_KW + U64_KW + STR_TESTS_OK + STR_TESTS_UNSUP + BAR
 OPERATOR_WORDS = ["(", ")", "!", ",", "-a", "-and", "-o", "-or"]
 
 FMT_FIELDS_OK = list("%abcfgGhHikmnpPsStuUy") + ["{fid}", "{projid}", "{mirror-count}", "{stripe-count}",
-                                                  "{stripe-size}", "A@", "Ak", "CY", "T@", "TH", "{xattr:ab}"]
+                                                  "{stripe-size}", "{xattr:ab}"] + [t + c for t in "ACT" for c in "@kHY+cZ"]
 FMT_FIELDS_UNSUP = list("dDFlMYZ")
 FMT_ESC = ["\\a", "\\b", "\\f", "\\n", "\\r", "\\t", "\\v", "\\0", "\\\\", "\\101", "\\042", "\\176", "\\134", "\\q", "\\", "\\400", "\\501", "\\777", "\\377"]
 
